@@ -44,7 +44,13 @@ GenCmd(st, sd, t) ==
         (* seed = 1 mod 4: autowrite on; a modified buffer that is not current; both files rewritten by another program, the
            current one re-read afterwards (so its time stamp is the later one); quit must refuse to overwrite the other file *)
         scaw == sd % 4 = 1 /\ ph >= 3 /\ ph <= 11
-    IN IF scaw /\ ph = 3 THEN [k |-> "se", opt |-> "aw", val |-> TRUE]
+        (* seed = 0 mod 4: the sixteen slots are filled at once (one new path per step, now and then a change that the
+           next e! leaves behind in its buffer), so that the rest of the script runs with a full table: going back to the
+           path in the last slot, opening a seventeenth *)
+        fast == sd % 4 = 0 /\ Len(st.tab) < 16
+    IN IF fast /\ t % 5 = 1 THEN [k |-> "a", n |-> 1]
+       ELSE IF fast THEN [k |-> "e", path |-> AllPaths[Len(st.tab) + 1], force |-> TRUE]
+       ELSE IF scaw /\ ph = 3 THEN [k |-> "se", opt |-> "aw", val |-> TRUE]
        ELSE IF scaw /\ ph = 4 THEN [k |-> "e", path |-> "f1", force |-> TRUE]
        ELSE IF scaw /\ ph = 5 THEN [k |-> "a", n |-> 1]
        ELSE IF scaw /\ ph = 6 THEN [k |-> "e", path |-> "f2", force |-> TRUE]
